@@ -225,7 +225,10 @@ class _Grid:
 
     @classmethod
     def from_circuit(
-        cls, circuit: cirq.FrozenCircuit, single_qubit_gate_moments_only: bool
+        cls,
+        circuit: cirq.FrozenCircuit,
+        single_qubit_gate_moments_only: bool,
+        tags_to_ignore: tuple = (),
     ) -> _Grid:
         gate_types: dict[ops.Qid, dict[int, _CellType]] = {
             q: dict.fromkeys(range(len(circuit)), _CellType.UNKNOWN) for q in circuit.all_qubits()
@@ -252,7 +255,8 @@ class _Grid:
                     else:
                         gate_types[q][mid] = _CellType.DOOR
                 else:
-                    if _is_clifford_op(op_at_q):
+                    # Operations tagged to be ignored must stay untouched: they are walls.
+                    if _is_clifford_op(op_at_q) and set(op_at_q.tags).isdisjoint(tags_to_ignore):
                         gate_types[q][mid] = _CellType.DOOR
                         mergeable[q][mid] = _is_single_qubit_operation(op_at_q)
                     else:
@@ -334,7 +338,11 @@ def add_dynamical_decoupling(
 
     orig_circuit = circuit.freeze()
 
-    grid = _Grid.from_circuit(orig_circuit, single_qubit_gate_moments_only)
+    grid = _Grid.from_circuit(
+        orig_circuit,
+        single_qubit_gate_moments_only,
+        tuple(context.tags_to_ignore) if context is not None else (),
+    )
 
     if context is not None and context.logger is not None:
         context.logger.log("Preprocessed input circuit grid repr:\n%s", str(grid))
